@@ -381,7 +381,8 @@ inductive Lit where
   | list (l : List Lit) | tuple (l : List Lit) | set (l : List Lit) | dict (kvs : List (Lit × Lit))
 
 mutual
-/-- `_is_plain_value` of the repair (fixes/C17-v2-generated-value-plain.diff) -/
+/-- `_is_plain_value` (actions/v2_x/generation.py, /repo 98bf321): None / bool / int / float / str, and list / tuple / set / dict of those —
+    for a dict the KEYS and the values -/
 def Lit.isPlain : Lit → Bool
   | .none | .bool _ | .int _ | .float _ | .str _ => true
   | .bytes _ | .complex _ | .ellipsis => false
@@ -395,11 +396,61 @@ def Lit.allPlainKV : List (Lit × Lit) → Bool
   | (k, v) :: xs => k.isPlain && v.isPlain && Lit.allPlainKV xs
 end
 
+/-! #### what the END of the turn does with a stored value: `state_to_json` = `json.dumps(encode_to_dict(state))` (serialization.py),
+called by `LLMRails.generate_async` outside every try/except -/
+
+/-- `all(isinstance(k, str) for k in obj)` -/
+def Lit.isStrKey : Lit × Lit → Bool
+  | (.str _, _) => true
+  | _ => false
+
+mutual
+/-- `encode_to_dict` on a literal value: does it return (`true`) or fall through to `raise Exception("Unhandled type …")` (`false`)?
+    Same branch structure: list → elements; str/int/float/None → as is (bool is an int); dict → only the values when every key is a
+    str, else keys and values (`items`); tuple / set → elements; anything else (bytes, complex, Ellipsis) → unhandled. -/
+def Lit.encodable : Lit → Bool
+  | .none | .bool _ | .int _ | .float _ | .str _ => true
+  | .bytes _ | .complex _ | .ellipsis => false
+  | .list l | .tuple l | .set l => Lit.allEncodable l
+  | .dict kvs => if kvs.all Lit.isStrKey then Lit.allEncodableV kvs else Lit.allEncodableKV kvs
+def Lit.allEncodable : List Lit → Bool
+  | [] => true
+  | x :: xs => x.encodable && Lit.allEncodable xs
+def Lit.allEncodableV : List (Lit × Lit) → Bool
+  | [] => true
+  | (_, v) :: xs => v.encodable && Lit.allEncodableV xs
+def Lit.allEncodableKV : List (Lit × Lit) → Bool
+  | [] => true
+  | (k, v) :: xs => k.encodable && v.encodable && Lit.allEncodableKV xs
+end
+
+/-- CPython's default `sys.get_int_max_str_digits()` is 4300: `str(i)`, and with it `json.dumps(i)`, raise ValueError iff `|i| ≥ 10^4300`
+    (the limit does not apply to hexadecimal / octal / binary INPUT: `literal_eval("0x" + "f"*3600)` is such an int) -/
+def Lit.intStrLimit : Nat := 10 ^ 4300
+
+mutual
+/-- `json.dumps` of the encoded value: every int in it (element, value, key, inside tuple keys) can be printed -/
+def Lit.printable : Lit → Bool
+  | .int i => decide (i.natAbs < Lit.intStrLimit)
+  | .none | .bool _ | .float _ | .str _ | .bytes _ | .complex _ | .ellipsis => true
+  | .list l | .tuple l | .set l => Lit.allPrintable l
+  | .dict kvs => Lit.allPrintableKV kvs
+def Lit.allPrintable : List Lit → Bool
+  | [] => true
+  | x :: xs => x.printable && Lit.allPrintable xs
+def Lit.allPrintableKV : List (Lit × Lit) → Bool
+  | [] => true
+  | (k, v) :: xs => k.printable && v.printable && Lit.allPrintableKV xs
+end
+
+/-- `state_to_json` accepts a state whose context holds the value -/
+def Lit.storable (x : Lit) : Bool := x.encodable && x.printable
+
 inductive GenValueErr where
   | py (e : PyErr)                     -- an exception of the text post-processing (never happens: `postValueV2_total`)
   | invalidLlmResponse (value : Str)   -- `raise Exception(f"Invalid LLM response: `{value}`")`
 
-/-- the tail of 2.x `generate_value` AS IT IS: `try: return literal_eval(value) except Exception: raise Exception("Invalid …")` -/
+/-- the tail of 2.x `generate_value` BEFORE repair 98bf321 (kept for the counterexample): `try: return literal_eval(value) except Exception: raise Exception("Invalid …")` -/
 def generateValueV2 {ε : Type} (literalEval : Str → Except ε Lit) (p : Parser) (lastPromptLine out : Str) : Except GenValueErr Lit :=
   match postValueV2 p lastPromptLine out with
   | .error e => .error (.py e)
@@ -408,7 +459,7 @@ def generateValueV2 {ε : Type} (literalEval : Str → Except ε Lit) (p : Parse
     | .error _ => .error (.invalidLlmResponse v)
     | .ok x => .ok x
 
-/-- … and REPAIRED: a literal that is not plain data is an invalid LLM response as well -/
+/-- … and AS IT IS NOW (98bf321): a literal that is not plain data is an invalid LLM response as well -/
 def generateValueV2R {ε : Type} (literalEval : Str → Except ε Lit) (p : Parser) (lastPromptLine out : Str) : Except GenValueErr Lit :=
   match postValueV2 p lastPromptLine out with
   | .error e => .error (.py e)
@@ -416,6 +467,15 @@ def generateValueV2R {ε : Type} (literalEval : Str → Except ε Lit) (p : Pars
     match literalEval v with
     | .error _ => .error (.invalidLlmResponse v)
     | .ok x => if x.isPlain then .ok x else .error (.invalidLlmResponse v)
+
+/-- … and with the proposed repair fixes/C17-v2-generated-value-printable-int.diff: an int that cannot be printed is not plain data either -/
+def generateValueV2S {ε : Type} (literalEval : Str → Except ε Lit) (p : Parser) (lastPromptLine out : Str) : Except GenValueErr Lit :=
+  match postValueV2 p lastPromptLine out with
+  | .error e => .error (.py e)
+  | .ok v =>
+    match literalEval v with
+    | .error _ => .error (.invalidLlmResponse v)
+    | .ok x => if x.isPlain && x.printable then .ok x else .error (.invalidLlmResponse v)
 
 def inRanges (rs : List (Nat × Nat)) (c : Char) : Bool := rs.any (fun r => r.1 ≤ c.toNat && c.toNat ≤ r.2)
 def isReWord (c : Char) : Bool := inRanges NemoVerif.Generated.C17Tables.wordRanges c
